@@ -10,6 +10,20 @@ use crate::rd::mix;
 
 pub fn main(args: &[String]) -> i32 {
     let prof_name = args.get(2).map(|s| s.as_str()).unwrap_or("c05");
+    if let Ok(path) = std::env::var("DEV_BYTES") {
+        // one case from a file of raw generator bytes: program, verdict, time per stage
+        let bytes = std::fs::read(&path).expect("DEV_BYTES file");
+        let prof = profiles::by_name(prof_name).expect("profile");
+        let t0 = std::time::Instant::now();
+        let (p, _) = gen::program(&bytes, prof);
+        crate::astutil::fix_lambda_names(&p);
+        let t1 = t0.elapsed();
+        let r = crate::prelude::run_program(&p, &RefCfg::default());
+        let t2 = t0.elapsed();
+        println!("{}", crate::pretty::render(&p.main));
+        println!("generate {:?}, reference {:?} -> {:?} ({} steps, {} prints)", t1, t2 - t1, r.end, r.steps, r.out.len());
+        return 0;
+    }
     let seed: u64 = args.get(3).and_then(|s| s.parse().ok()).unwrap_or(1);
     let count: u64 = args.get(4).and_then(|s| s.parse().ok()).unwrap_or(200);
     let show: usize = args.get(5).and_then(|s| s.parse().ok()).unwrap_or(3);
